@@ -210,8 +210,7 @@ def main(argv=None):
                 print(f"VIOLATION property={prop} replay={path}")
                 print("  oracle=" + oracle + " steps=" + str(len(md["steps"])) + " detail=" + json.dumps(m["finding"]["detail"], default=str)[:600])
                 print("  boot=" + md["boot"] + " minimised_steps=" + json.dumps(md["steps"], default=str))
-                if rc == 0:
-                    rc = 1
+                rc = 1   # a violation confirmed by a fresh-interpreter replay is reported as such, whatever else went wrong
     # known findings diagnosed by the oracles during the search: one line per listed finding, with a minimised replay
     for kid, n in sorted(total.get("known", {}).items()):
         known_hits[kid] = known_hits.get(kid, 0) + n
